@@ -33,15 +33,15 @@ REQUIRED_THEOREMS = [
     'kronecker_eq', 'isqrt_spec', 'iroot_spec', 'is_square_spec', 'factor_prime_power_sound',
     'ratrec_sound', 'powMod_eq',
 ]
-RULE = ('exhaustive: is_prime for all x in [-50, 10^5], next_prime/prev_prime for all x <= 2*10^4 (thorough 10^5) and every 7th above, '
-        'gcdext/invert/jacobi/kronecker/legendre for all pairs |a|,|b| <= R (quick R = 80, thorough R = 300) incl. '
-        'error cases, isqrt/is_square/iroot for all x <= 2*10^4 (thorough 2*10^5) plus every k-th x and all perfect '
-        'powers +-1 up to 10^6 (iroot n in -1..21), factor_prime_power on all proper prime powers <= 10^6, all primes < 3000, '
-        'a sample of larger primes and of non-powers, '
-        'ratrec for all y < 20 (thorough 41) with all x and small N, D (incl. None / invalid), powmod on a small cube; '
-        'random: 64..2048-bit arguments built to hit each branch (primes, Carmichael / strong pseudoprimes, '
-        'prime powers with prime above/below 2^10, multiples, |b| = 2g, exact roots +-1, constructed '
-        'rational reconstructions). A case is distinct by (function, arguments).')
+RULE = ('exhaustive (thorough tier; quick tier bounds in brackets): is_prime for all x in [-50, 10^5] [3*10^4], '
+        'next_prime/prev_prime for all x <= 10^5 [8000 and every 11th up to 3*10^4], gcdext/invert/jacobi/kronecker for '
+        'all pairs |a|,|b| <= 300 [60] incl. error cases, legendre on -60..60 x -5..59, isqrt/is_square/iroot for all '
+        'x <= 2*10^5 [8000] plus every 3rd [101st] x and all perfect powers +-1 up to 10^6 (iroot with n in -1..21), '
+        'factor_prime_power on all proper prime powers <= 10^6, all primes < 3000 [2000], a sample of larger primes and of '
+        'non-powers, products of two primes around 2^10, ratrec for all y <= 40 [15] with all x and N, D in '
+        '{None, -1..5}, powmod on a small cube; random: 64..2048-bit arguments built to hit each branch (primes, '
+        'Carmichael / strong pseudoprimes, prime powers with the prime above/below 2^10, multiples, |b| = 2g, exact '
+        'roots +-1, constructed rational reconstructions, invalid bounds). A case is distinct by (function, arguments).')
 EXPLANATION = ('All clauses have theorems except: "composite => is_prime returns False" is probabilistic in the '
                'code (random Miller-Rabin bases): proved are no-false-negatives for every base list, exactness of '
                'the trial-division stage and soundness of a False answer (is_prime_partial); the 4^-n error bound '
@@ -126,7 +126,7 @@ def drv_line(fn, args, bases=None):
     return ' '.join(toks)
 
 
-def run_driver(lines, nchunks=4):
+def run_driver(lines, nchunks=3):
     if len(lines) < 4000:
         return DRIVER.run(lines)
     chunks = [lines[k::nchunks] for k in range(nchunks)]     # round-robin: balances the expensive operations
@@ -182,14 +182,14 @@ def rand_prime(rng, bits, pool=2):
 
 def gen_exhaustive(ctx):
     cases = []
-    X = 100_000
-    XN = ctx.scale(20_000, 100_000)
+    X = ctx.scale(30_000, 100_000)
+    XN = ctx.scale(8_000, 100_000)
     for x in range(-50, X + 1):
         cases.append(('is_prime', (x,), None))
-        if x <= XN or x % 7 == 0:
+        if x <= XN or x % 11 == 0:
             cases.append(('next_prime', (x,), None))
             cases.append(('prev_prime', (x,), None))
-    R = ctx.scale(80, 300)
+    R = ctx.scale(60, 300)
     fact = {y: orc.factorint(y) for y in range(1, R + 1)}
     oddpart = {}
     for y in range(1, R + 1):
@@ -208,8 +208,8 @@ def gen_exhaustive(ctx):
             cases.append(('legendre', (a, b), None))
     # roots: all x <= XR, every step-th x up to 10^6, all perfect powers +-1 up to 10^6
     squares = set(i * i for i in range(0, 1100))
-    XR = ctx.scale(20_000, 200_000)
-    step = ctx.scale(53, 3)
+    XR = ctx.scale(8_000, 200_000)
+    step = ctx.scale(101, 3)
     xs = set(range(-40, XR + 1)) | set(range(XR, 1_000_001, step))
     powers = set()
     for n in range(2, 21):
@@ -221,10 +221,10 @@ def gen_exhaustive(ctx):
     for x in sorted(xs):
         cases.append(('isqrt', (x,), None))
         cases.append(('is_square', (x,), x in squares))
-        if x <= 3000:
+        if x <= ctx.scale(500, 3000):
             ns = (-1, 0, 1, 2, 3, 4, 5, 6, 7, 11, 12, 19, 20, 21)
         elif x in powers:
-            ns = (1, 2, 3, 4, 5, 6, 7, 8, 9, 10, 13, 19, 20)
+            ns = ctx.scale((2, 3, 4, 5, 7, 19), (1, 2, 3, 4, 5, 6, 7, 8, 9, 10, 13, 19, 20))
         elif x <= XR:
             ns = (2, 3) if x % 2 else (2 + x % 7,)
         else:
@@ -234,20 +234,21 @@ def gen_exhaustive(ctx):
     # prime powers <= 10^6 and non-powers (a prime > 2^10 costs ~170 is_prime calls in the code: sampled)
     sv = orc.sieve()
     rng = ctx.subrng('fpp-small')
-    nprimes = ctx.scale(600, 12000)
-    primes_big = [p for p in range(3000, 1_000_001) if sv[p]]
+    nprimes = ctx.scale(300, 12000)
+    PSMALL = ctx.scale(2000, 3000)
+    primes_big = [p for p in range(PSMALL, 1_000_001) if sv[p]]
     chosen = set(rng.sample(primes_big, nprimes))
     for p in range(2, 1_000_001):
         if sv[p]:
             q, d = p, 1
             while q <= 1_000_000:
-                if d > 1 or p < 3000 or p in chosen:
+                if d > 1 or p < PSMALL or p in chosen:
                     cases.append(('factor_prime_power', (q,), ('ok', (p, d))))
                 q *= p
                 d += 1
     for x in range(-10, 3000):
         cases.append(('factor_prime_power', (x,), None))
-    for _ in range(ctx.scale(4000, 60000)):
+    for _ in range(ctx.scale(2000, 60000)):
         cases.append(('factor_prime_power', (rng.randrange(2, 1_000_001),), None))
     # products of two primes around 2^10 (first prime not covered by the trial stage)
     around = [p for p in range(ctx.scale(990, 900), ctx.scale(1070, 1200)) if sv[p]]
@@ -256,7 +257,7 @@ def gen_exhaustive(ctx):
             if p <= q:
                 cases.append(('factor_prime_power', (p * q,), ('err', 'ValueError') if p != q else ('ok', (p, 2))))
     # ratrec, small exhaustive
-    for y in range(-2, ctx.scale(20, 41)):
+    for y in range(-2, ctx.scale(16, 41)):
         for x in range(-3, y + 4):
             opts = [None] + list(range(-1, 6))
             for N in opts:
@@ -274,7 +275,7 @@ def gen_random(ctx):
     rng = ctx.subrng('random-large')
     cases = []
     sizes = [64, 96, 128, 256, 512, 1024, 2048]
-    reps = ctx.scale(6, 40)
+    reps = ctx.scale(4, 40)
     # primality
     for x in CARMICHAEL + STRONG_PSP:
         cases.append(('is_prime', (x,), None))
